@@ -146,6 +146,28 @@ type blk struct {
 
 func (b *blk) String() string { return fmt.Sprintf("blk(%x.. %dB)", b.hash[:4], len(b.raw)) }
 
+// expand stretches a rapid-drawn seed into n bytes (a deterministic function of
+// the draw; keeps big payloads cheap to generate and to shrink).
+func expand(seed uint64, n int) []byte {
+	out := make([]byte, n)
+	x := seed | 1
+	for i := range out {
+		x ^= x << 13
+		x ^= x >> 7
+		x ^= x << 17
+		out[i] = byte(x >> 24)
+	}
+	return out
+}
+
+func genBytes(t *rapid.T, label string, lens []int) []byte {
+	n := rapid.SampledFrom(lens).Draw(t, label+"len")
+	if n == 0 {
+		return []byte{}
+	}
+	return expand(rapid.Uint64().Draw(t, label+"seed"), n)
+}
+
 // genBlock draws a serialisable block: any header, 0..4 small transactions.
 // uniq makes the header unique within a case.
 func genBlock(t *rapid.T, uniq uint32) *blk {
@@ -158,19 +180,19 @@ func genBlock(t *rapid.T, uniq uint32) *blk {
 	mb.Header.Bits = rapid.Uint32().Draw(t, "bits")
 	mb.Header.Nonce = uniq
 	// sizes: tiny blocks, blocks around 1 KiB (the smallest file limit) and up to ~2.5 KiB
-	ntx := rapid.SampledFrom([]int{0, 0, 1, 1, 2, 3, 4}).Draw(t, "ntx")
+	ntx := rapid.SampledFrom([]int{0, 1, 1, 2, 2, 3, 4}).Draw(t, "ntx")
 	for i := 0; i < ntx; i++ {
 		tx := wire.NewMsgTx(rapid.Int32Range(1, 2).Draw(t, "txver"))
 		nin := rapid.IntRange(1, 2).Draw(t, "nin")
 		for j := 0; j < nin; j++ {
 			var op wire.OutPoint
 			op.Index = rapid.Uint32().Draw(t, "idx")
-			ss := rapid.SliceOfN(rapid.Byte(), 0, rapid.SampledFrom([]int{0, 8, 60, 300}).Draw(t, "sslen")).Draw(t, "ss")
+			ss := genBytes(t, "ss", []int{0, 8, 60, 107, 300})
 			tx.AddTxIn(wire.NewTxIn(&op, ss, nil))
 		}
 		nout := rapid.IntRange(0, 2).Draw(t, "nout")
 		for j := 0; j < nout; j++ {
-			pk := rapid.SliceOfN(rapid.Byte(), 0, rapid.SampledFrom([]int{0, 25, 200, 600}).Draw(t, "pklen")).Draw(t, "pk")
+			pk := genBytes(t, "pk", []int{0, 25, 34, 200, 600, 900})
 			tx.AddTxOut(wire.NewTxOut(rapid.Int64Range(0, 21e14).Draw(t, "amt"), pk))
 		}
 		tx.LockTime = rapid.Uint32().Draw(t, "lock")
@@ -203,7 +225,7 @@ func genVal(t *rapid.T) []byte {
 	case 1:
 		return []byte{}
 	case 2:
-		return rapid.SliceOfN(rapid.Byte(), 500, 2048).Draw(t, "bigval")
+		return genBytes(t, "bigval", []int{500, 1000, 2047, 2048})
 	default:
 		return rapid.SliceOfN(rapid.Byte(), 1, 12).Draw(t, "val")
 	}
